@@ -215,7 +215,8 @@ class Module:
         with open(path, "r", encoding="utf-8") as f:
             self.src = f.read()
         try:
-            self.tree = ast.parse(self.src, filename=path)
+            from .desugar import desugar
+            self.tree = desugar(ast.parse(self.src, filename=path))
         except SyntaxError as e:
             raise AnalysisError("cannot parse %s: %s" % (self.relpath, e))
         self.functions: Dict[str, FunctionInfo] = {}
